@@ -19,6 +19,8 @@ def main():
             print('VIOLATION property=%s replay=%s' % (a.prop.upper(), a.replay))
         sys.exit(rc)
     prop = a.prop.upper()
+    # second opinion on a deterministic sample of the solver's verdicts (vt/cross.py)
+    os.environ.setdefault('VT_CROSS_RATE', '100' if a.tier == 'quick' else '1000')
     try:
         mod = importlib.import_module('vt.props.' + prop.lower())
     except Exception:
